@@ -33,6 +33,8 @@ pub const REFS: &[(&str, &str)] = &[
   ("Leaf | MidT", "import { Leaf } from \"./barrel.ts\";\nimport { Mid as MidT } from \"./barrel.ts\";\n"),
   ("MidT", "import { Mid as MidT } from \"./mid.ts\";\n"),
   ("DepT", "import type { DepT } from \"jsr:@s/b@1\";\n"),
+  // one name of c.ts (which exports two): what else of c.ts is public depends on who else asks
+  ("CT", "import type { CT } from \"./c.ts\";\n"),
 ];
 
 pub const BARREL_SRC: &str = "export * from \"./mid.ts\";\nexport const barrelOwn: number = 1;\n";
@@ -109,6 +111,7 @@ pub const DECLS: &[(&str, &str)] = &[
   ("arrow-generic-async", "export const c@N = async <T,>(a: T): Promise<T> => a;\n"),
   ("declare-exports", "export declare const dc@N: @R;\nexport declare function df@N(a: @R): void;\n"),
   ("const-in-function-type", "export const c@N: (a: @R) => @R = (a) => a;\nexport let fnv@N: { (x: @R): void; new (y: number): @R };\n"),
+  ("reexport-one-name-of-c", "export type { CT } from \"./c.ts\";\n"),
   ("interface", "export interface I@N { a: @R; m(x: @R): @R; readonly [k: string]: any; }\n"),
   ("interface-extends", "interface BaseI@N { z: @R }\nexport interface I@N extends BaseI@N { y: number }\n"),
   ("type-alias", "export type T@N = @R | string;\n"),
@@ -147,6 +150,7 @@ pub const B_DECLS: &[(&str, &str)] = &[
   ("b-imports-c", "import { CT } from \"./c.ts\";\nexport type FromC = CT;\n"),
   ("b-reexports-c", "export * from \"./c.ts\";\n"),
   ("b-unused", "function bUnused@N(): void {}\n"),
+  ("b-imports-cv", "import { cv } from \"./c.ts\";\nexport const fromCv: typeof cv = 1;\n"),
 ];
 
 pub const C_SRC: &str = "export interface CT { c: number }\nexport const cv: number = 1;\n";
